@@ -2,7 +2,7 @@
 from collections import Counter
 
 from .. import hooks
-from ..gen import big_n, canon, exact, mk_event, rand_grid, rand_nonoverlapping
+from ..gen import big_n, canon, exact, maybe_zone, mk_event, rand_grid, rand_nonoverlapping
 from ..model import allen, norm, pairwise_disjoint, subtract, union
 from . import _tx
 from ._tx import exc_viol, is_event_list, iv, snap, tmod, unmodified
@@ -127,10 +127,12 @@ _DATA = [{"label": "a"}, {"label": "b"}, {}, {"app": "x", "n": [1, {"k": None}]}
          {"label": "a", "cursor": [12, 40]}, {"size": {"wh": {"$tuple": [80, 24]}}, "hist": [{"$tuple": ["a", 1]}]}]
 
 
-def _specs(rng, ivs, base, unit, idbase):
+def _specs(rng, ivs, base, unit, idbase, zone=None):
     out = []
     for i, (s, e) in enumerate(ivs):
         sp = dict(ts=base + s * unit, dur=(e - s) * unit, data=rng.choice(_DATA))
+        if zone and rng.random() < 0.7:
+            sp["zone"] = zone
         if rng.random() < 0.6:
             sp["id"] = idbase + i
         out.append(sp)
@@ -139,6 +141,7 @@ def _specs(rng, ivs, base, unit, idbase):
 
 def gen_case(rng, ctx):
     base, unit = rand_grid(rng)
+    base, unit, zone = maybe_zone(rng, base, unit)
     span = rng.choice([6, 10, 16, 30])
     na, nb = big_n(rng, rng.randrange(0, 9), sizes=(120, 257)), big_n(rng, rng.randrange(0, 9), sizes=(120, 257))
     if max(na, nb) > 50:
@@ -152,7 +155,7 @@ def gen_case(rng, ctx):
         b = [(rng.randrange(0, 3), span - rng.randrange(0, 3))]
     elif r < 0.27 and a:
         b = list(a)
-    sa, sb = _specs(rng, a, base, unit, 100), _specs(rng, b, base, unit, 200)
+    sa, sb = _specs(rng, a, base, unit, 100, zone), _specs(rng, b, base, unit, 200, zone)
     if rng.random() < 0.35:
         # list-two events that end between milliseconds (durations keep microseconds although timestamps do not):
         # every cut point is still an edge of list one, so exact pieces remain possible
